@@ -426,15 +426,192 @@ def schmidt_ranks(case, M: np.ndarray, order: List[str], dims: List[int]) -> Dic
 
 # ------------------------------------------------------------------ run
 
+# ------------------------------------------------------------------ numeric coefficient matrices (no symbols)
+# For a purely rational Gamma symbolic Gaussian elimination is ordinary Gaussian elimination.  Theorems behind this
+# stream (lean/Ptn/C12/Props.lean): `cover_of_fully_reduced`, `rank_of_fully_reduced`,
+# `sge_numeric_rank_le_reduced`, `sge_numeric_not_fully_reduced` (the pattern claim is FALSE when Gamma has a zero
+# row or column - which the construction never produces: every U / V node of a cut carries an edge).
+
+def frac_rank(M) -> int:
+    """Rank over Q by the harness' own fraction Gauss-Jordan elimination (independent of the library)."""
+    A = [[Fraction(x) for x in row] for row in M]
+    m = len(A)
+    n = len(A[0]) if A else 0
+    r = 0
+    for c in range(n):
+        piv = next((i for i in range(r, m) if A[i][c] != 0), None)
+        if piv is None:
+            continue
+        A[r], A[piv] = A[piv], A[r]
+        for i in range(m):
+            if i != r and A[i][c] != 0:
+                f = A[i][c] / A[r][c]
+                A[i] = [a - f * b for a, b in zip(A[i], A[r])]
+        r += 1
+    return r
+
+
+def has_zero_line(M) -> bool:
+    return any(all(x == 0 for x in row) for row in M) or any(all(row[j] == 0 for row in M) for j in range(len(M[0])))
+
+
+def gen_numeric_case(rng: random.Random) -> Dict[str, Any]:
+    m, n = rng.randint(1, 6), rng.randint(1, 6)
+    mode = rng.choice(["lowrank", "lowrank", "lowrank", "sparse", "dense", "zero-lines", "dependent-row"])
+
+    def small():
+        return Fraction(rng.choice([-3, -2, -1, 1, 2, 3]), rng.choice([1, 1, 1, 2, 3]))
+    if mode in ("lowrank", "zero-lines"):
+        r = rng.randint(0 if mode == "zero-lines" else 1, min(m, n))
+        dens = rng.choice([0.5, 0.8, 1.0])
+        Lm = [[small() if rng.random() < dens else Fraction(0) for _ in range(r)] for _ in range(m)]
+        Rm = [[small() if rng.random() < dens else Fraction(0) for _ in range(n)] for _ in range(r)]
+        M = [[sum((Lm[i][k] * Rm[k][j] for k in range(r)), Fraction(0)) for j in range(n)] for i in range(m)]
+    else:
+        dens = {"sparse": rng.choice([0.25, 0.4]), "dense": 1.0, "dependent-row": rng.choice([0.5, 0.9])}[mode]
+        M = [[small() if rng.random() < dens else Fraction(0) for _ in range(n)] for _ in range(m)]
+        if mode == "dependent-row" and m >= 3:
+            i, j, k = rng.sample(range(m), 3)
+            a, b = small(), small()
+            M[i] = [a * x + b * y for x, y in zip(M[j], M[k])]
+    if mode == "zero-lines":
+        if rng.random() < 0.6:
+            j = rng.randrange(n)
+            for row in M:
+                row[j] = Fraction(0)
+        if rng.random() < 0.4:
+            M[rng.randrange(m)] = [Fraction(0)] * n
+    if rng.random() < 0.3:      # hide the structure from the diagonal pivot search
+        rng.shuffle(M)
+        perm = list(range(n))
+        rng.shuffle(perm)
+        M = [[row[j] for j in perm] for row in M]
+    return {"kind": "numgauss", "mode": mode, "M": [[[x.numerator, x.denominator] for x in row] for row in M]}
+
+
+def numeric_matrix(case):
+    return [[Fraction(a, b) for a, b in row] for row in case["M"]]
+
+
+def numeric_line(case) -> str:
+    from harness.props import c13
+    return c13.gauss_line(numeric_matrix(case), {})
+
+
+def run_numeric_case(ctx, case, model_out: Optional[List[str]] = None):
+    """Goal: for a rational Gamma the reduced matrix of `gaussian_elimination` (a) is the one of the Lean model of C13,
+    (b) factorises Gamma exactly, (c) yields a bond (smaller minimum vertex cover of supp M' and supp Gamma) equal to the
+    rank of Gamma over Q, (d) when Gamma has no zero row / column: has exactly one non-zero entry in every row and
+    every column, their number being the rank."""
+    from copy import deepcopy
+    from pytreenet.ttno.symbolic_gaussian_elimination_fraction import gaussian_elimination
+    from harness.props import c13
+    M0 = numeric_matrix(case)
+    m, n = len(M0), len(M0[0])
+    rk = frac_rank(M0)
+    zl = has_zero_line(M0)
+    ctx.count("numgauss:" + json.dumps(case["M"]), nontrivial=(m >= 2 and n >= 2 and 0 < rk < min(m, n)), corr=True)
+    ctx.tally("numeric shape", f"{m}x{n}")
+    ctx.tally("numeric rank deficiency", min(m, n) - rk)
+    ctx.tally("numeric zero line", zl)
+    ctx.sample(case, 2)
+    try:
+        L, A, R = gaussian_elimination(deepcopy(M0))
+    except Exception as e:      # noqa: BLE001
+        ctx.oracle_fail(case, f"gaussian_elimination raised {type(e).__name__} on a rational matrix: {str(e)[:120]}")
+        return
+    if any(isinstance(x, tuple) for row in A for x in row):
+        ctx.oracle_fail(case, "reduced matrix of a rational Gamma contains a symbolic entry")
+        return
+    # (a) correspondence with the Lean model of the elimination
+    if model_out is None:
+        try:
+            model_out = ctx.lean.batch([numeric_line(case)])
+        except Exception as e:      # noqa: BLE001
+            raise common.HarnessError(f"model driver: {e}")
+    impl = c13.canon_result(m, n, L, A, R, {})
+    if model_out[0] != impl:
+        ctx.corr_fail(case, f"numeric gaussian_elimination: model {model_out[0][:200]} library {impl[:200]}")
+    # (b) exactness with Fractions
+    p, q = len(A), len(R)
+    shape_ok = (len(L) == m and all(len(r_) == p for r_ in L) and all(len(r_) == q for r_ in A)
+                and all(len(r_) == n for r_ in R) and p >= 1)
+    if not shape_ok:
+        ctx.oracle_fail(case, f"shapes of (Op_l, M', Op_r) do not chain: {len(L)}x?, {p}x?, {q}x? for a {m}x{n} input")
+        return
+    for i in range(m):
+        for j in range(n):
+            v = sum((Fraction(L[i][k]) * Fraction(A[k][l]) * Fraction(R[l][j]) for k in range(p) for l in range(q)),
+                    Fraction(0))
+            if v != M0[i][j]:
+                ctx.oracle_fail(case, f"Op_l * M' * Op_r differs from Gamma at ({i},{j}): {v} != {M0[i][j]}")
+                return
+    # (c) the bond the cut creates = rank over Q
+    supp = [(i, j) for i in range(p) for j in range(q) if A[i][j] != 0]
+    supp_raw = [(i, j) for i in range(m) for j in range(n) if M0[i][j] != 0]
+    mm, mm_raw = max_matching(supp, p), max_matching(supp_raw, m)
+    bond = mm if mm < mm_raw else mm_raw        # keep-the-better rule of `_apply_bipartite_to_gamma_u`
+    ctx.tally("numeric cover(M') - rank", mm - rk)
+    if bond != rk:
+        ctx.oracle_fail(case, f"rational Gamma of rank {rk}: minimum covers {mm} (reduced) / {mm_raw} (raw), bond {bond}")
+    # (d) partial-permutation pattern (theorem `cover_of_fully_reduced` then gives cover = number of non-zeros)
+    rows, cols = [i for i, _ in supp], [j for _, j in supp]
+    pp = len(set(rows)) == len(rows) and len(set(cols)) == len(cols)
+    ctx.tally("numeric pattern", ("partial permutation" if pp else "NOT a partial permutation")
+              + (" (zero line in Gamma)" if zl else ""))
+    if not zl:
+        if not pp:
+            ctx.oracle_fail(case, f"Gamma without zero row/column: reduced matrix has two non-zeros in a row or column: "
+                                  f"support {supp[:8]}")
+        elif not (p == q == len(supp) == rk):
+            ctx.oracle_fail(case, f"Gamma without zero row/column of rank {rk}: reduced matrix is {p}x{q} with "
+                                  f"{len(supp)} non-zero entries")
+    elif pp and len(supp) != rk:
+        ctx.oracle_fail(case, f"fully reduced matrix with {len(supp)} non-zero entries but rank(Gamma) = {rk}")
+
+
+def shrink_numeric(case):
+    M = case["M"]
+    m, n = len(M), len(M[0])
+    if m > 1:
+        for i in range(m):
+            yield dict(case, M=M[:i] + M[i + 1:])
+    if n > 1:
+        for j in range(n):
+            yield dict(case, M=[row[:j] + row[j + 1:] for row in M])
+    for i in range(m):
+        for j in range(n):
+            if M[i][j][0] != 0:
+                yield dict(case, M=[[([0, 1] if (a, b) == (i, j) else M[a][b]) for b in range(n)] for a in range(m)])
+            if M[i][j] not in ([0, 1], [1, 1]):
+                yield dict(case, M=[[([1, 1] if (a, b) == (i, j) else M[a][b]) for b in range(n)] for a in range(m)])
+
+
+def numeric_fixed_cases():
+    def C(rows):
+        return {"kind": "numgauss", "mode": "fixed", "M": [[[x, 1] for x in row] for row in rows]}
+    return [
+        # witnesses of `sge_numeric_not_fully_reduced`: zero columns, reduced matrix keeps two entries in one column
+        C([[0, 0, 0, -1], [0, 0, 1, 0], [0, 0, -1, -1]]),
+        C([[0, 2, 0, 1], [0, 3, 0, 2], [0, 7, 0, 3]]),
+        # a row vanishing ABOVE the pivot (deleted row index < pivot index) and a pivot-free column
+        C([[1, 1, 0], [1, 1, 1], [0, 0, 1]]),
+        C([[0, 0, 1], [0, 1, 0], [0, 1, 1]]),
+        C([[1, 2], [2, 4]]), C([[0, 0], [0, 0]]), C([[1, 1, 0], [0, 0, 1]]),
+    ]
+
+
 def run(ctx):
     rng = ctx.rng
     cases: List[Dict[str, Any]] = []
+    numeric_corpus: List[Dict[str, Any]] = []
     cdir = os.path.join(common.CORPUS_DIR, "C12")
     if os.path.isdir(cdir):
         for f in sorted(os.listdir(cdir)):
             if f.endswith(".json"):
                 payload = common.unjson(json.load(open(os.path.join(cdir, f))))
-                cases.append(payload.get("case", payload))
+                cc = payload.get("case", payload)
+                (numeric_corpus if cc.get("kind") == "numgauss" else cases).append(cc)
     max_nodes = 6 if ctx.tier == "quick" else 8
     max_dim = 72 if ctx.tier == "quick" else 216
     n_cases = ctx.n(4000, 30000)
@@ -458,6 +635,17 @@ def run(ctx):
         if ctx.time_left() < 0:
             break
         run_case(ctx, c, outs[2 * i: 2 * i + 2])
+    # numeric (symbol-free) coefficient matrices handed to gaussian_elimination directly
+    nrng = ctx.subrng("numgauss")
+    ncases = numeric_corpus + numeric_fixed_cases() + [gen_numeric_case(nrng) for _ in range(ctx.n(2500, 40000))]
+    try:
+        nouts = ctx.lean.batch([numeric_line(c) for c in ncases])
+    except Exception as e:      # noqa: BLE001
+        raise common.HarnessError(f"model driver: {e}")
+    for c, o in zip(ncases, nouts):
+        if ctx.time_left() < 0:
+            break
+        run_numeric_case(ctx, c, [o])
 
 
 def fixed_cases():
@@ -491,6 +679,8 @@ def lean_lines(case) -> List[str]:
 
 
 def run_case(ctx, case, model_out: Optional[List[str]] = None):
+    if case.get("kind") == "numgauss":
+        return run_numeric_case(ctx, case, model_out)
     from pytreenet.ttno.ttno_class import TreeTensorNetworkOperator
     n = len(case["par"])
     terms = case["terms"]
@@ -635,6 +825,9 @@ def _group_removals(case):
 
 def shrink(case):
     import itertools
+    if case.get("kind") == "numgauss":
+        yield from shrink_numeric(case)
+        return
     for cand in itertools.chain(_group_removals(case), c01.shrink(case)):
         cl = c01.classify(cand)
         if cl["dup_assign"] or cl["zero"]:
